@@ -14,12 +14,13 @@ CONSTANTS
   SlewMax = 200
   MaxSamples = 1
   Ghosts = FALSE
-  OffPos = {0, 1, 2}
+  Readd = TRUE
+  OffPos = {0, 1}
   OffNeg = {1}
   LeapVals = {"none"}
   Wides = {FALSE}
   MaxChan = 1
-  Bound = 6
+  Bound = 1
   UsableVals = {TRUE}
 INIT GenInit
 NEXT GenNext
